@@ -77,6 +77,11 @@ def main(argv=None):
             code, _, _, _ = run_property(pid, a.tier, seed, a.root, ctx=ctx)
             worst = max(worst, code)
         return worst
+    if a.root and os.path.realpath(a.root) != os.path.realpath("/repo") and not os.environ.get("SA_EVIDENCE_DIR"):
+        # a run against a scratch tree must never overwrite the evidence of /repo
+        import tempfile
+        from . import report
+        report.EVIDENCE_DIR = tempfile.mkdtemp(prefix="sa-evidence-")
     if not a.property:
         ap.error("property id required")
     pid = a.property.upper()
